@@ -116,6 +116,7 @@ def run_proof(prop, tier):
 # C06, update/batch contexts opened inside watchers and batches on copies for C04).  Violations that match a known finding of
 # the ORIGIN are that property's business and are dropped here (its own check reports them).
 CARRY = {
+    "C03": [("C17", None, r"calls\[(extra|missing)\]")],
     "C05": [("C07", None, r"class=mraise")],
     "C06": [("C17", None, r"calls\[(extra|missing)\]")],
     "C04": [("C03", r"C03/(queued|event)/.*", r"prog=.*(update|batch)"),
